@@ -59,7 +59,9 @@ def accessor_signature(ocp):
 
 
 def worker(args):
-    case, when, calls, points = args
+    case, when, calls, points = args[:4]
+    edit = args[4] if len(args) > 4 else None
+    late = args[5] if len(args) > 5 and args[5] else {"calls": [], "values": []}
     from ..common import setup_rockit_path, time_limit
     rockit = setup_rockit_path()
     import io, contextlib
@@ -76,16 +78,49 @@ def worker(args):
     os.close(fd)
     try:
         with time_limit(240), contextlib.redirect_stdout(io.StringIO()), contextlib.redirect_stderr(io.StringIO()):
-            B = CS.build_rockit(case, rockit, with_solver=False)
+            case0 = case
+            if edit is not None:
+                # the OCP as it was before the edit (declared after the first transcription, before saving)
+                case0 = copy.deepcopy(case)
+                if edit[0] == "subject_to":
+                    case0["constraints"] = case0["constraints"][:-1]
+                elif edit[0] == "add_objective":
+                    case0["objective"] = case0["objective"][:-1]
+            if late["values"]:
+                # values that are set only after the first transcription start out different
+                case0 = copy.deepcopy(case0)
+                for slot, v in late["values"]:
+                    case0["param_values"]["p"][slot] = jq(Fr(v) + 1)
+            B = CS.build_rockit(case0, rockit, with_solver=False)
             ocp = B.ocp
-            ocp.solver(*case.get("solver", c13.SOLVER0))
+            ocp.solver(*(edit[1] if edit is not None and edit[0] == "solver" else case.get("solver", c13.SOLVER0)))
             for call in calls:
                 c13.apply_call(B, ocp, call)
             out["inputs"] = engine.impl_inputs(B, case)
             before = None
             if when in ("transcribed", "solved"):
+                ocp.sample(ocp.t, grid="control")
+                # updates made on the transcribed OCP must be part of what is saved
+                for slot, v in late["values"]:
+                    ocp.set_value(B.S["p"][slot], float(Fr(v)))
+                for call in late["calls"]:
+                    c13.apply_call(B, ocp, call)
                 before = c13.observe_nlp(B, case, points, rockit)
                 before["solver"] = rec.get(before.pop("opti_id"))
+            if when == "edited":
+                ocp.sample(ocp.t, grid="control")
+                if edit[0] == "subject_to":
+                    con = edit[2]
+                    pt = con["grid"] == "point"
+                    kw = {} if pt else {"grid": con["grid"], "include_first": con.get("include_first", True),
+                                        "include_last": con.get("include_last", True)}
+                    if Fr(con.get("scale", 1)) != 1:
+                        kw["scale"] = float(Fr(con["scale"]))
+                    ocp.subject_to(CS.constraint_expr(con, B.pex if pt else B.ex), **kw)
+                elif edit[0] == "add_objective":
+                    ocp.add_objective(B.pex(edit[2]))
+                else:
+                    ocp.solver(*case["solver"])
             if when == "solved":
                 try:
                     ocp.solve_limited()
@@ -144,9 +179,31 @@ def gen_items(seed, n):
                 o = rng.choice(objs)
                 calls.append({"obj": [o["kind"], o["idx"]], "g": o["g"], "slot": o["slot"], "len": o["len"], "form": "const",
                               "value": jq(dyadic(rng, -3, 3, 2)), "after": False})
-        when = ["fresh", "transcribed", "solved"][i % 3]
+        when = ["fresh", "transcribed", "solved", "edited"][i % 4]
+        edit = None
+        if when == "edited":
+            k = rng.choice(["subject_to", "add_objective", "solver"])
+            if k == "subject_to":
+                con = gen.gen_path_constraint(rng, c, dict(OPTS, roots=False))
+                c["constraints"].append(con)
+                edit = ["subject_to", None, con]
+            elif k == "add_objective":
+                t = gen.pterm(rng, c, {"intc": False}, allow_int=False)
+                c["objective"].append(t)
+                edit = ["add_objective", None, t]
+            else:
+                edit = ["solver", ["ipopt", {"ipopt.print_level": 0, "print_time": False, "ipopt.sb": "yes", "ipopt.max_iter": 5}]]
+        late = {"calls": [], "values": []}
+        if when in ("transcribed", "solved"):
+            for slot in c13.scalar_param_slots(c):
+                if rng.random() < 0.6:
+                    late["values"].append([slot, c["param_values"]["p"][slot]])
+            if objs and rng.random() < 0.7:
+                o = rng.choice(objs)
+                late["calls"].append({"obj": [o["kind"], o["idx"]], "g": o["g"], "slot": o["slot"], "len": o["len"], "form": "const",
+                                      "value": jq(dyadic(rng, -3, 3, 2)), "after": True})
         pts = [gen.gen_point(rng, c) for _ in range(2)]
-        items.append((c, when, calls, pts))
+        items.append((c, when, calls, pts, edit, late))
     return items
 
 
@@ -156,7 +213,10 @@ def run_items(items, name, jobs=16):
     cps = [(it[0], it[3]) for it in items]
     mv = engine.model_shooting(cps, [r.get("inputs") for r in rr], name)
     dis, nontriv, dist, skipped = [], set(), {}, 0
-    for i, ((case, when, calls, pts), r) in enumerate(zip(items, rr)):
+    for i, (it, r) in enumerate(zip(items, rr)):
+        case, when, calls, pts = it[:4]
+        edit = it[4] if len(it) > 4 else None
+        late = it[5] if len(it) > 5 else None
         key = "%s/%s" % (case["method"]["kind"], when)
         dist[key] = dist.get(key, 0) + 1
         d = []
@@ -184,7 +244,7 @@ def run_items(items, name, jobs=16):
             if not d:
                 nontriv.add(sha([case, when, calls]))
         if d:
-            dis.append({"property": PID, "what": d[:3], "case": {"case": case, "when": when, "calls": calls}, "points": pts,
+            dis.append({"property": PID, "what": d[:3], "case": {"case": case, "when": when, "calls": calls, "edit": edit, "late": late}, "points": pts,
                         "finding_key": None})
     return dis, nontriv, dist, skipped
 
@@ -194,7 +254,7 @@ def corpus():
     for p in sorted(glob.glob(os.path.join(VERIF, "corpus", PID, "*.json"))):
         d = json.load(open(p))
         c = d["case"]
-        out.append((c["case"], c["when"], c["calls"], d["points"]))
+        out.append((c["case"], c["when"], c["calls"], d["points"], c.get("edit"), c.get("late")))
     return out
 
 
@@ -205,7 +265,8 @@ def run(tier="quick", seed=0, jobs=16):
     return {"evaluations": len(items), "distinct_nontrivial": len(nontriv),
             "rule": "random OCPs (MS|SS|DC degree 1..3, DAEs, scales, free/parametric horizon, parameters and variables of every grid kind, "
                     "path/point constraints with offsets and scales, objective terms, constant initial guesses, solver options) x save "
-                    "{before transcription, after transcription, after solve_limited}.  Compared: accessors and method of original before/"
+                    "{before transcription, after transcription, after solve_limited, after an edit (subject_to / add_objective / solver) of "
+                    "the transcribed OCP}; set_value / set_initial updates made after the transcription and before saving.  Compared: accessors and method of original before/"
                     "after saving and of the loaded OCP; NLP rows, objective, parameter vector, start point, solver name/options loaded vs "
                     "original; original before vs after saving; loaded vs Rocq model rows/objective; original still solvable.  distinct by "
                     "hash of (case, when, guesses)",
@@ -216,6 +277,6 @@ def run(tier="quick", seed=0, jobs=16):
 def replay(path):
     d = json.load(open(path))
     c = d["case"]
-    dis, _, _, _ = run_items([(c["case"], c["when"], c["calls"], d["points"])], PID + "r", 1)
+    dis, _, _, _ = run_items([(c["case"], c["when"], c["calls"], d["points"], c.get("edit"), c.get("late"))], PID + "r", 1)
     print(json.dumps(dis[:1], indent=1, default=str)[:4000] if dis else "replay: agrees")
     return 1 if dis else 0
